@@ -33,6 +33,10 @@ func (rc ReportCodecEVMStreamlined) Encode(r llo.Report, cd llotypes.ChannelDefi
 		return nil, fmt.Errorf("failed to decode opts; got: '%s'; %w", cd.Opts, err)
 	}
 
+	if len(opts.ABI) != len(r.Values) {
+		return nil, fmt.Errorf("ABI and values length mismatch; ABI: %d, Values: %d", len(opts.ABI), len(r.Values))
+	}
+
 	if opts.FeedID == nil {
 		payload = append(
 			encodePackedUint32(uint32(cd.ReportFormat)),
